@@ -30,10 +30,12 @@ StepReset == /\ Rec[l].ev = "reset" /\ live' = Rec[l].ok /\ l' = l + 1
 StepOp ==
   LET e == Rec[l] IN
   /\ e.ev = "op"
-  /\ IF live /\ e.op.k = "cksum"
+  /\ IF live /\ e.res.k = "died"
+     THEN Report(<<PK("ProcessDied", FALSE)>>) /\ live' = FALSE
+     ELSE IF live /\ e.op.k = "cksum"
      THEN /\ Report(ChecksumPreds(e.alloc, e.reserved, e))
           /\ Drift(e)
-          /\ live' = (e.res.k # "died")
+          /\ UNCHANGED live
      ELSE UNCHANGED live
   /\ l' = l + 1
 
